@@ -170,6 +170,11 @@ def concretise(e):
     if m in ("VYc", "6Yc"):
         if e.get("j", True) and len(a) >= 2:
             out["jumbo"] = (struct.pack("<I", a[0]) + ("T%d" % a[1]).encode() + b"\0").hex()
+        elif len(a) >= 2:
+            # a NORMAL event (no jumbo flag) whose 16-byte payload is laid out like a jumbo type event
+            # (size, type id, terminated label): it must be refused for not being jumbo, whatever it carries
+            out["payload"] = (struct.pack("<II", 12, a[0] & 0xFFFFFFFF)
+                              + ("T%d" % a[1]).encode()[:7].ljust(8, b"\0")).hex()
         else:
             out["payload"] = b"".join(struct.pack("<I", x & 0xFFFFFFFF) for x in a).hex()
     elif m[1] in "T" and m[0] in "V6":
